@@ -62,6 +62,8 @@ def cases(ctx):
             c['key'] = [names[j] for j in kidx]
             if len(c['key']) == 1 and rng.random() < 0.6:
                 c['key'] = c['key'][0]
+            elif rng.random() < 0.35:
+                c['key'] = tuple(c['key'])        # a tuple of names (one-element tuples included) as well as a list
             vars_ = [names[j] for j in range(nf) if j not in kidx]
             c['variables'] = None
             if vars_ and rng.random() < 0.4:
@@ -165,7 +167,7 @@ def judge(case, ctx):
 
     if kind in ('melt', 'melt-recast'):
         key = case['key']
-        klist = key if isinstance(key, list) else [key]
+        klist = list(key) if isinstance(key, (list, tuple)) else [key]
         inferred = case.get('keyform') == 'inferred' and case['variables'] is not None
         if inferred:
             klist = [h for h in hdr if h not in case['variables']]
